@@ -859,5 +859,5 @@ class C19(Prop):
         MC.cleanup_tmp(all_pids=True)
 
 
-READY = False
+READY = True
 PROP = C19()
